@@ -613,6 +613,7 @@ func main() {
 		panic(err)
 	}
 	tr.Sync = true
+	sim.Watchdog(180 * time.Second)
 	if *exhEv != "" {
 		exhReplay(tr, *seed, *exhNosec, *exhPath, *exhEv)
 		tr.Close()
